@@ -901,6 +901,7 @@ CHOICE_decode_uper(const asn_codec_ctx_t *opt_codec_ctx,
 	ASN_DEBUG("Discovered CHOICE %s encodes %s", td->name, elm->name);
 
 	if(ct && ct->range_bits >= 0) {
+		if(!elm->type->op->uper_decoder) ASN__DECODE_FAILED;
 		rv = elm->type->op->uper_decoder(opt_codec_ctx, elm->type,
 			elm->encoding_constraints.per_constraints, memb_ptr2, pd);
 	} else {
@@ -992,6 +993,7 @@ CHOICE_encode_uper(const asn_TYPE_descriptor_t *td,
         if(per_put_few_bits(po, present_enc, ct->range_bits))
             ASN__ENCODE_FAILED;
 
+        if(!elm->type->op->uper_encoder) ASN__ENCODE_FAILED;
         return elm->type->op->uper_encoder(
             elm->type, elm->encoding_constraints.per_constraints, memb_ptr, po);
     } else {
